@@ -20,6 +20,10 @@ import time
 VERIF = os.path.dirname(os.path.dirname(os.path.dirname(os.path.abspath(__file__))))
 PY = os.path.join(VERIF, ".venv", "bin", "python")
 KNOWN = os.path.join(VERIF, "known_findings.json")
+# CPU budgets in the property modules are the sizes measured on the reference run; every budget is
+# multiplied by this head-room factor so that a slower or busier machine does not turn a
+# dischargeable obligation into an INCONCLUSIVE one.
+SCALE = float(os.environ.get("VERIF_TIMEOUT_SCALE", "2.5"))
 
 
 def load_known(prop: str):
@@ -48,6 +52,10 @@ def _run_spec(spec: dict, workdir: str, tag: str, hard_timeout: float) -> dict:
 
 
 def run_obligation(prop: str, module: str, ob, known: list, workdir: str, seed: int) -> dict:
+    import copy as _copy
+
+    ob = _copy.copy(ob)
+    ob.timeout = ob.timeout * SCALE
     base = {"module": module, "harness": ob.harness, "cfg": ob.cfg}
     res = {
         "name": ob.name, "harness": ob.harness, "cfg": ob.cfg, "expect": ob.expect, "status": None, "paths": 0, "choices": 0,
